@@ -226,6 +226,7 @@ type loopInfo struct {
 }
 
 type Explorer struct {
+	graph *Graph // call graph, built on first use (sole implementations of hand-written interfaces)
 	// loop-carried variables that only ever hold one of a few loop-invariant values (a value computed on
 	// first use and kept): tag+φ name → those values; filled by a first exploration, used by the second
 	phiHints map[string][]Val
